@@ -140,6 +140,33 @@ def innermost(e: BaseException) -> str:
     return where
 
 
+def recursive_function(e: BaseException) -> str:
+    """For a RecursionError the innermost frame is accidental; name the pdfminer function that occurs
+    most often on the stack (the one that recurses)."""
+    import collections
+    tb = e.__traceback__
+    root = os.path.realpath(os.path.join(REPO, "pdfminer"))
+    cnt: "collections.Counter[str]" = collections.Counter()
+    cache = {}
+    while tb is not None:
+        co = tb.tb_frame.f_code
+        name = cache.get(co)
+        if name is None:
+            if os.path.realpath(co.co_filename).startswith(root):
+                mod = os.path.splitext(os.path.basename(co.co_filename))[0]
+                name = mod + "." + getattr(co, "co_qualname", co.co_name).replace("<locals>.", "")
+            else:
+                name = ""
+            cache[co] = name
+        if name:
+            cnt[name] += 1
+        tb = tb.tb_next
+    if not cnt:
+        return "<outside pdfminer>"
+    top = max(cnt.values())
+    return sorted(n for n, c in cnt.items() if c == top)[0]
+
+
 def classify(meter: Meter, entry: str, data: bytes, budget: int, wall: float):
     from pdfminer.psexceptions import PSException
 
@@ -161,7 +188,7 @@ def classify(meter: Meter, entry: str, data: bytes, budget: int, wall: float):
     except WallClock as e:
         cls, exc, where = "wall", "WallClock", innermost(e)
     except RecursionError as e:
-        cls, exc, where = "recursion", "RecursionError", innermost(e)
+        cls, exc, where = "recursion", "RecursionError", recursive_function(e)
     except PSException as e:
         cls, exc, where = "family", type(e).__name__, innermost(e)
     except AssertionError as e:
